@@ -221,6 +221,17 @@ class _DeferredLine:
         return len(str(self))
 
 
+_REPEAT_CUTOFF = 3  # same as the traceback module
+
+
+def _repeated_frames_str(count):
+    if count <= _REPEAT_CUTOFF:
+        return ''
+    count -= _REPEAT_CUTOFF
+    return '  [Previous line repeated {} more time{}]\n'.format(
+        count, 's' if count > 1 else '')
+
+
 # TODO: dedup frames, look at __eq__ on _DeferredLine
 class TracebackInfo:
     """The TracebackInfo class provides a basic representation of a stack
@@ -348,7 +359,18 @@ class TracebackInfo:
         :func:`traceback.format_stack`.
         """
         ret = 'Traceback (most recent call last):\n'
-        ret += ''.join([f.tb_frame_str() for f in self.frames])
+        last, count = None, 0
+        for f in self.frames:
+            # like the interpreter, show a frame repeating on the same
+            # line (recursion) three times, then summarize the rest
+            cur = (f.module_path, f.lineno, f.func_name)
+            if cur != last:
+                ret += _repeated_frames_str(count)
+                last, count = cur, 0
+            count += 1
+            if count <= _REPEAT_CUTOFF:
+                ret += f.tb_frame_str()
+        ret += _repeated_frames_str(count)
         return ret
 
 
